@@ -164,7 +164,18 @@ pub fn step_try_join_all(c: &JCfg) {
                 // polling again must not fabricate a value
                 let r2 = Pin::new(&mut tj).poll(&mut cx);
                 if let Poll::Ready(Ok(v)) = r2 {
-                    vassert!(all_ok(c, &p) && v.len() == c.n, "C07:try_join_all polled again after an error returned Ok with a value no input produced");
+                    // count before looking: it may hand out at most the Ok
+                    // outputs that exist and have not been released (an empty
+                    // Vec fabricates nothing)
+                    let mut available = 0;
+                    let mut i = 0;
+                    while i < c.n {
+                        if gh.tok_made[i] == 1 && gh.tok_drops[i] == 0 {
+                            available += 1;
+                        }
+                        i += 1;
+                    }
+                    vassert!(v.len() <= available, "C07:try_join_all polled again after an error returned Ok with a value no input produced");
                     core::mem::forget(v);
                 }
                 vcover!(true, "cover:poll_after_err");
